@@ -29,7 +29,7 @@ def weights(draw, allow_zero=True):
     if k <= 4:
         return float(draw(st.integers(1, 9)))
     if k <= 6:
-        return draw(st.sampled_from([0.5, 0.25, 0.1, 2.5, 0.01, 10.1, 1.0, 0.00005, 1e-7, 250000.0]))
+        return draw(st.sampled_from([0.5, 0.25, 0.1, 2.5, 0.01, 10.1, 1.0, 0.00005, 1e-7, 250000.0, 1e-9, 3e-9, 2e-12]))
     return round(draw(st.floats(0.05, 20.0)), 3)
 
 
@@ -62,11 +62,18 @@ def token(draw, bds, max_atoms=6, chem="any", avoid=frozenset(), allow_lead=True
             if hv_ok and label == "P" and draw(st.integers(0, 2)) == 0:
                 val = 5
             nd = Node(label, free=val, **kw)
+            n_oxo = {("S", 4): 1, ("S", 6): 2, ("P", 5): 1}.get((label, val), 0)
             if parent is not None:
                 parent.children.append([order, nd, False])
                 parent.free -= order
                 nd.free -= order
             nodes.append(nd)
+            # hypervalent centres only in the forms RDKit's UFF knows: sulfoxide, sulfone, phosphine oxide type
+            for _ in range(n_oxo):
+                ox = Node("O", free=0)
+                nd.children.append([2, ox, True])
+                nd.free -= 2
+                nodes.append(ox)
             return nd
 
         def total_free():
@@ -104,8 +111,7 @@ def token(draw, bds, max_atoms=6, chem="any", avoid=frozenset(), allow_lead=True
             order = 1
             if par.free >= 2 and par.label in ("C", "N") and draw(st.integers(0, 5)) == 0:
                 order = 2
-            if par.free >= 4 and par.label in ("S", "P"):
-                order = 2  # hypervalent centre: spend two valences on =O
+
             if par.free >= 3 and par.label == "C" and draw(st.integers(0, 9)) == 0:
                 order = 3
             if order == 1:
@@ -424,7 +430,7 @@ def _bd(draw, sym, did, order=1, weighted=True, zero_ok=False):
 
 @st.composite
 def stoch_obj(draw, left_sym, right_sym, avoid=frozenset(), chem="any", arche=None, max_atoms=5, lists=None,
-              unit_scale=None, dist=True, families=None, hazards=False, small=True):
+              unit_scale=None, dist=True, families=None, hazards=False, small=True, to_end=None):
     """One stochastic object.
 
     left_sym / right_sym: '' for [] or the symbol the *outside* carries.
@@ -475,9 +481,19 @@ def stoch_obj(draw, left_sym, right_sym, avoid=frozenset(), chem="any", arche=No
         units.append([BD("$", sid, None, 1), BD("$", sid, None, 1)])
     else:
         raise ValueError(arche)
-    for u in units:
-        if draw(st.booleans()):
-            u.reverse() if False else None
+    kind_weights = draw(st.integers(0, 7))
+    if kind_weights == 0:
+        # head-to-tail notation: every growing (tail) descriptor has weight 0; equal weights, also all zero, mean uniform
+        for u in units:
+            for b in u:
+                if b.symbol == tail and b.order == order and not isinstance(b.weight, tuple):
+                    b.weight = 0.0
+    elif kind_weights == 1:
+        # tiny but different weights: still proportional
+        for u in units:
+            for b in u:
+                if not isinstance(b.weight, tuple):
+                    b.weight = draw(st.sampled_from([1e-9, 3e-9, 2e-9, 0.0]))
     rep = []
     for u in units:
         perm = draw(st.permutations(u))
@@ -515,7 +531,8 @@ def stoch_obj(draw, left_sym, right_sym, avoid=frozenset(), chem="any", arche=No
     sto = Stoch(left, right, rep, ends, d, ws)
     use_lists = lists if lists is not None else draw(st.integers(0, 3)) == 0
     if use_lists:
-        _add_lists(draw, sto, left_sym if arche != "mixed_order" else "", to_end=(right_sym == "" and draw(st.integers(0, 2)) == 0))
+        te = (right_sym == "" and draw(st.integers(0, 2)) == 0) if to_end is None else (to_end and right_sym == "")
+        _add_lists(draw, sto, left_sym if arche != "mixed_order" else "", to_end=te)
     elif left_sym and draw(st.integers(0, 3)) == 0:
         sto.left = BD(left_sym, did, draw(weights(allow_zero=False)), 1, draw(st.sampled_from(WSTYLES)))
     _reprint(sto)
@@ -578,7 +595,7 @@ def _reprint(sto):
 @st.composite
 def molecules(draw, avoid=frozenset(), chem="any", max_blocks=2, closed=True, implicit_forms=True, max_atoms=5,
               families=None, lists=None, plain_ok=True, arche=None, small=True, marker=None, force_prefix=None, min_blocks=1,
-              fam=None):
+              fam=None, to_end=None):
     """A molecule AST (elements as the parser must see them, `written` as typed)."""
     if plain_ok and draw(st.integers(0, 11)) == 0:
         t = draw(token([], max_atoms=8, chem=chem, avoid=avoid, min_heavy=2))
@@ -600,7 +617,7 @@ def molecules(draw, avoid=frozenset(), chem="any", max_blocks=2, closed=True, im
         else:
             right = "$" if fam == "$" else (CONJ[cur_left] if cur_left else draw(st.sampled_from(["<", ">"])))
         sto, lab = draw(stoch_obj(cur_left, right, avoid=avoid, chem=chem, max_atoms=max_atoms, families=families,
-                                  lists=lists, arche=arche, small=small))
+                                  lists=lists, arche=arche, small=small, to_end=to_end))
         labels.append(lab)
         did = sto.left.id if cur_left else (sto.right.id if right else None)
         # element in front
